@@ -164,7 +164,7 @@ def gen_history(rng, n_ops, mc_share=0.25, rational=True, seeds=False):
     """a history over positive measurements and the operations + - * / (division only by measurements or
     positive constants), so every formula stays defined under any change of the values"""
     ops = []
-    kinds, errs = [], []
+    kinds, errs = [], {}
     rho = {}                     # current correlations: kept diagonally dominant, hence positive semi-definite
     n_meas = rng.randrange(2, 4)
     seed0 = rng.choice([1, 2, 3])
@@ -177,9 +177,10 @@ def gen_history(rng, n_ops, mc_share=0.25, rational=True, seeds=False):
         ops.append(["meas", v, e])
         mvals[len(kinds)] = v
         kinds.append("meas")
-        errs.append(e)
+        errs[len(kinds) - 1] = e
     exponents = set()                        # measurements used as exponents: they keep whole values
     frozen = set()                           # measurements under a square root: their central values stay as they are
+    nodiv = set()                            # measurements with central value 0: never a divisor, exponent or radicand
 
     def meas_ids():
         return [i for i, k in enumerate(kinds) if k == "meas"]
@@ -193,17 +194,35 @@ def gen_history(rng, n_ops, mc_share=0.25, rational=True, seeds=False):
         if seeds and rng.random() < 0.06:
             ops.append(["seed", seed0 if rng.random() < 0.7 else rng.choice([1, 2, 3])])
             continue
+        if ds and n_new < 6 and rng.random() < 0.02:
+            # a stationary point: z = 0 +/- e under a square (first-order uncertainty exactly 0, yet z is uncertain)
+            e = rng.choice([0.125, 0.25, 0.5])
+            ops.append(["meas", 0.0, e])
+            z = len(kinds)
+            kinds.append("meas")
+            errs[z] = e
+            mvals[z] = 0.0
+            frozen.add(z)
+            nodiv.add(z)
+            ops.append(rng.choice([["bin", "pow", ["obj", z], ["const", 2]], ["bin", "mul", ["obj", z], ["obj", z]]]))
+            kinds.append("der")
+            n_new += 1
+            form = rng.choice(["str", "enum"])
+            ops.extend([["set_own", len(kinds) - 1, "monte-carlo", form], ["read_value", len(kinds) - 1], ["read_error", len(kinds) - 1]])
+            continue
         if (not ds) or (r < 0.16 and n_new < 6):
             op = rng.choice(["add", "sub", "mul", "div", "mul", "add", "pow"])
             i = rng.randrange(len(kinds))
             if rng.random() < 0.5 and ds:
                 i = rng.choice(ds)            # build on an intermediate result
             if op == "div":
-                second = rng.choice([["obj", rng.choice(meas_ids())], ["const", rng.choice([2, 4, 0.5])]])
+                second = rng.choice([["obj", rng.choice([m for m in meas_ids() if m not in nodiv])], ["const", rng.choice([2, 4, 0.5])]])
                 ops.append(["bin", "div", ["obj", i], second])
             elif op == "pow" and rng.random() < 0.4 and len(meas_ids()) >= 2:
                 # a measurement as the exponent (often an exact one, uncertainty 0): it stays a variable of the formula
                 b, x = rng.sample(meas_ids(), 2)
+                if b in nodiv or x in nodiv:
+                    continue
                 if b in exponents:
                     b, x = x, b
                 if b not in exponents and x not in frozen:
@@ -222,6 +241,8 @@ def gen_history(rng, n_ops, mc_share=0.25, rational=True, seeds=False):
             elif op == "sub" and rng.random() < 0.12 and len(meas_ids()) >= 2 and n_new < 5:
                 # a singular point: sqrt(a - b) at equal central values (value 0, infinite derivative-method uncertainty)
                 a, b = rng.sample([m for m in meas_ids()], 2)
+                if a in nodiv or b in nodiv:
+                    continue
                 if a in exponents or b in exponents or b in frozen:
                     continue
                 frozen.update([a, b])        # (a formula whose central value is undefined is outside every property)
@@ -243,7 +264,7 @@ def gen_history(rng, n_ops, mc_share=0.25, rational=True, seeds=False):
             elif rng.random() < 0.2:
                 # a formula that is undefined on part of the sampled range (the measurement may have an uncertainty as
                 # large as its value): Monte Carlo discards those draws, reads must stay stable all the same
-                ops.append(["un", "sqrt", ["obj", rng.choice(meas_ids())]])
+                ops.append(["un", "sqrt", ["obj", rng.choice([m for m in meas_ids() if m not in nodiv])]])
                 frozen.add(ops[-1][2][1])
             else:
                 ops.append(["bin", op, ["obj", i], ["obj", rng.randrange(len(kinds))]])
@@ -489,10 +510,16 @@ def oracle_history(ops, check_recalc=True, check_methods=True):
             with warnings.catch_warnings():
                 warnings.simplefilter("ignore")
                 saved_own = own.get(k)
+                asis = (float(r.value), float(r.error)) if own.get(k, glob) == "derivative" else None
                 r.error_method = "derivative"
                 fresh = rebuild_afresh(s, k)
                 fresh.error_method = "derivative"
                 pairs = [("value", float(r.value), float(fresh.value)), ("error", float(r.error), float(fresh.error))]
+                if asis is not None:
+                    # the derivative method is in force for this quantity (own selection or global setting): what it
+                    # reports as it stands is the fresh derivative-method result
+                    pairs += [("reported value (derivative method in force)", asis[0], float(fresh.value)),
+                              ("reported uncertainty (derivative method in force)", asis[1], float(fresh.error))]
                 for m, kind in enumerate(s.kinds):
                     if kind == "meas":
                         pairs.append(("derivative w.r.t. measurement {}".format(m),
@@ -506,6 +533,9 @@ def oracle_history(ops, check_recalc=True, check_methods=True):
                 if not close(a, b):
                     return "step {} {}: after recalculate() the {} of quantity {} is {} but the same formula built afresh gives {}".format(
                         n, op, what, k, a, b)
+        if t in ("read_value", "read_error") and out[0] == "gen" and out[1] is None and math.isfinite(out[2]):
+            return "step {} {}: the Monte Carlo method is in force for quantity {} and it reports {}, but no simulation is " \
+                   "stored for it".format(n, op, op[1], out[2])
         if t in ("read_value", "read_error") and out[0] != "rejected":
             again = s.run(op)
             if again != out and not (len(out) == len(again) and out[0] == again[0] and all(
